@@ -178,7 +178,16 @@ func vfGenQuery(d *vfDB, r *rand.Rand, depth int) (q *vfQuery) {
 
 func vfC22Case(rep *vk.Report, d *vfDB, dbi, qi, ncfg int, th *Thread) {
 	r := vk.RandFor(2200, qi)
-	q := vfGenQuery(d, r, 1+r.IntN(5))
+	var q *vfQuery
+	if qi%5 == 4 {
+		// every fifth case: an index-aware shape (see zz_verif_qcommon_idxpattern_test.go)
+		if q = vfGenIndexQuery(d, r); q != nil {
+			rep.Count("index_aware_cases", 1)
+		}
+	}
+	if q == nil {
+		q = vfGenQuery(d, r, 1+r.IntN(5))
+	}
 	if q == nil {
 		rep.Count("gen_too_big", 1)
 		return
